@@ -4,9 +4,12 @@ CONSTANT KindSets <- KindSetsMid
 CONSTANT Placements <- PlacementsMid
 CONSTANT SubPatterns <- SubsMid
 CONSTANT TurnVals <- TurnsThorough
+CONSTANT RangePatterns <- RangeNear
+CONSTANTS MaxHist = 0 ContinueFrom = "any"
 INVARIANT PosteriorIsBasePosterior
 INVARIANT InnovationInRange
 INVARIANT InnovationIsAngleResidual
 INVARIANT StackIsPermutation
 INVARIANT Emit
 PROPERTY GroupKeepsPosterior
+PROPERTY PosteriorIgnoresHistory
